@@ -22,7 +22,7 @@ FINDINGS = os.path.join(VERIF, "known_findings.txt")
 
 SAN_ENV = {
     "ASAN_OPTIONS": "abort_on_error=1:detect_leaks=0:handle_abort=0:allocator_may_return_null=1:detect_stack_use_after_return=0",
-    "UBSAN_OPTIONS": "print_stacktrace=1:halt_on_error=1",
+    "UBSAN_OPTIONS": "print_stacktrace=1:halt_on_error=1:abort_on_error=1",
     "TSAN_OPTIONS": "halt_on_error=0:second_deadlock_stack=1:report_signal_unsafe=0",
 }
 
@@ -131,7 +131,12 @@ def run_job(job, binary, outdir):
     elif rc not in (0, 1):
         job.failure = "harness exit %s: %s" % (rc, err[-400:])
     if rc in (0, 1) and job.summary is None:
-        job.failure = "no summary line"
+        if san:
+            # a sanitizer stopped the process without going through the crash handler
+            head = re.sub(r"[^A-Za-z0-9_.-]+", "_", san.group(1))[:70]
+            job.violations.append(("%s:crash:sanitizer:%s" % (job.prop, head), errpath))
+        else:
+            job.failure = "no summary line"
     if os.path.exists(errpath) and not job.violations and not job.failure:
         # TSan (halt_on_error=0) reports go to log_path; keep stderr only on trouble
         try:
